@@ -373,8 +373,11 @@ func redactPipelineStage(stage interface{}, redactFieldNames bool, keyPath []str
 						default:
 							newMap.Set(redactedKey, redactScalarValue([]string{k}, v, inSearchStage, false))
 						}
-					} else {
+					} else if isFieldNameValue(v) {
 						newMap.Set(redactedKey, v)
+					} else {
+						// a document where a field name is expected (e.g. an expression): redact it below
+						break
 					}
 					continue
 				case Namespace:
@@ -458,8 +461,11 @@ func redactPipelineStage(stage interface{}, redactFieldNames bool, keyPath []str
 										default:
 											newSubMap.Set(subK, redactScalarValue([]string{k}, subV, inSearchStage, false))
 										}
-									} else {
+									} else if isFieldNameValue(subV) {
 										newSubMap.Set(subK, subV)
+									} else {
+										// a document where a field name is expected (e.g. an expression): redact it below
+										break
 									}
 									continue
 								case Namespace:
@@ -598,6 +604,23 @@ func redactQueryValues(obj *orderedmap.OrderedMap[string, any], redactFieldNames
 		}
 	}
 	return newObj
+}
+
+// isFieldNameValue reports whether v is a field name or a list of field names,
+// the only kinds of value a FieldName-typed argument may be copied from verbatim.
+func isFieldNameValue(v any) bool {
+	switch t := v.(type) {
+	case string:
+		return true
+	case []any:
+		for _, item := range t {
+			if _, ok := item.(string); !ok {
+				return false
+			}
+		}
+		return true
+	}
+	return false
 }
 
 func isRedactableFieldPatternInArray(arr []any) bool {
